@@ -253,6 +253,14 @@ var c13Muts = []c13Mut{
 		s.defs = append(s.defs, &sDef{kind: "scalar", name: d.name})
 		return d.name
 	}},
+	{"R3-type-after-scalar", func(r *Rng, s *sSet) string {
+		s.defs = append(s.defs, &sDef{kind: "scalar", name: "ScThenEnum"}, &sDef{kind: "enum", name: "ScThenEnum", values: []*sEnumVal{{name: "A"}}})
+		return "ScThenEnum"
+	}},
+	{"R3-scalar-after-scalar", func(r *Rng, s *sSet) string {
+		s.defs = append(s.defs, &sDef{kind: "scalar", name: "ScTwice"}, &sDef{kind: "scalar", name: "ScTwice"})
+		return "ScTwice"
+	}},
 	{"R3-duplicate-field", func(r *Rng, s *sSet) string {
 		d := s.pick(r, "object")
 		f := Pick(r, d.fields)
